@@ -69,12 +69,10 @@ def _ident(stream):
     return stream
 
 
-def build_chain(ops, rec):
-    """ops -> (Transformer, buffers). rec collects, per select, the list of Path.test() results"""
-    from genshi.filters.transform import Transformer, StreamBuffer
+def rec_path_class(rec):
+    """a Path subclass that records, per select link (keyed by its index in the chain), the list of
+    Path.test() results into `rec`"""
     from genshi.path import Path
-    from genshi.core import TEXT
-    from genshi.builder import Element
 
     class RecPath(Path):
         idx = None
@@ -98,50 +96,62 @@ def build_chain(ops, rec):
                 return r
             return _t
 
+    return RecPath
+
+
+def apply_op(t, i, op, bufs, RecPath):
+    """the Transformer derived from `t` (None: a fresh one) by operation `op`, the i-th link"""
+    from genshi.filters.transform import Transformer, StreamBuffer
+    from genshi.core import TEXT
+    from genshi.builder import Element
+
+    def buf(k):
+        if k not in bufs:
+            bufs[k] = StreamBuffer()
+        return bufs[k]
+
+    name = op[0]
+    if name == 'select':
+        p = RecPath(G.path_str(op[1]))
+        p.idx = i
+        return Transformer(p) if t is None else t.select(p)
+    if name in ('replace', 'before', 'after', 'prepend', 'append'):
+        return getattr(t, name)(_content(op[1], bufs))
+    if name == 'wrap':
+        if op[2]:
+            return t.wrap(Element(op[1], **dict((k, v) for k, v in op[2])))
+        return t.wrap(op[1])
+    if name == 'wrapel':
+        from genshi.core import Stream as _S
+        return t.wrap(Element(op[1], **dict((k, v) for k, v in op[2]))(_S(G.to_genshi(G.flatten(op[3])))))
+    if name == 'attrfn':
+        return t.attr(op[1], (lambda src: lambda name_, ev: ev[1][1].get(src))(op[2]))
+    if name == 'rename':
+        return t.rename(op[1])
+    if name == 'attr':
+        return t.attr(op[1], op[2])
+    if name == 'copy':
+        return t.copy(buf(op[1]), accumulate=op[2])
+    if name == 'cut':
+        return t.cut(buf(op[1]), accumulate=op[2])
+    if name == 'map':
+        return t.map(_bang, TEXT if op[1] == 'T' else None)
+    if name == 'substitute':
+        return t.substitute(op[1], op[2], op[3])
+    if name == 'filter':
+        return t.filter(_dropc if op[1] == 'dropc' else _ident)
+    if name in ('remove', 'unwrap', 'empty', 'invert', 'end', 'buffer'):
+        return getattr(t, name)()
+    raise ValueError(op)
+
+
+def build_chain(ops, rec):
+    """ops -> (Transformer, buffers). rec collects, per select, the list of Path.test() results"""
+    RecPath = rec_path_class(rec)
     bufs = {}
-
-    def buf(i):
-        if i not in bufs:
-            bufs[i] = StreamBuffer()
-        return bufs[i]
-
     t = None
     for i, op in enumerate(ops):
-        name = op[0]
-        if name == 'select':
-            p = RecPath(G.path_str(op[1]))
-            p.idx = i
-            t = Transformer(p) if t is None else t.select(p)
-        elif name in ('replace', 'before', 'after', 'prepend', 'append'):
-            t = getattr(t, name)(_content(op[1], bufs))
-        elif name == 'wrap':
-            if op[2]:
-                t = t.wrap(Element(op[1], **dict((k, v) for k, v in op[2])))
-            else:
-                t = t.wrap(op[1])
-        elif name == 'wrapel':
-            from genshi.core import Stream as _S
-            t = t.wrap(Element(op[1], **dict((k, v) for k, v in op[2]))(_S(G.to_genshi(G.flatten(op[3])))))
-        elif name == 'attrfn':
-            t = t.attr(op[1], (lambda src: lambda name_, ev: ev[1][1].get(src))(op[2]))
-        elif name == 'rename':
-            t = t.rename(op[1])
-        elif name == 'attr':
-            t = t.attr(op[1], op[2])
-        elif name == 'copy':
-            t = t.copy(buf(op[1]), accumulate=op[2])
-        elif name == 'cut':
-            t = t.cut(buf(op[1]), accumulate=op[2])
-        elif name == 'map':
-            t = t.map(_bang, TEXT if op[1] == 'T' else None)
-        elif name == 'substitute':
-            t = t.substitute(op[1], op[2], op[3])
-        elif name == 'filter':
-            t = t.filter(_dropc if op[1] == 'dropc' else _ident)
-        elif name in ('remove', 'unwrap', 'empty', 'invert', 'end', 'buffer'):
-            t = getattr(t, name)()
-        else:
-            raise ValueError(op)
+        t = apply_op(t, i, op, bufs, RecPath)
     return t, bufs
 
 
@@ -180,9 +190,13 @@ def jmark(m):
 def run_real(doc, ops):
     """-> dict(status 'ok'|'err', marked [[mark, event]...], err, bufs {id: events}, rec [[result...]...])"""
     rec = {}
+    t, bufs = build_chain(ops, rec)       # a malformed case raises here: not an outcome of the code under test
+    return run_transformer(doc, t, bufs, rec)
+
+
+def run_transformer(doc, t, bufs, rec):
     out = {'status': 'ok', 'marked': [], 'err': None, 'bufs': {}, 'rec': rec}
     events = G.to_genshi(G.flatten(doc))
-    t, bufs = build_chain(ops, rec)       # a malformed case raises here: not an outcome of the code under test
     try:
         with Watchdog():
             for mark, ev in t(events, keep_marks=True):
@@ -199,6 +213,72 @@ def run_real(doc, ops):
     for i, b in sorted(bufs.items()):
         out['bufs'][i] = G.from_genshi(list(b))
     return out
+
+
+OPCLASS = {'select': 'SelectTransformation', 'remove': 'RemoveTransformation', 'unwrap': 'UnwrapTransformation',
+           'empty': 'EmptyTransformation', 'invert': 'InvertTransformation', 'end': 'EndTransformation',
+           'buffer': 'BufferTransformation', 'wrap': 'WrapTransformation', 'wrapel': 'WrapTransformation',
+           'replace': 'ReplaceTransformation', 'before': 'BeforeTransformation', 'after': 'AfterTransformation',
+           'prepend': 'PrependTransformation', 'append': 'AppendTransformation', 'rename': 'RenameTransformation',
+           'attr': 'AttrTransformation', 'attrfn': 'AttrTransformation', 'copy': 'CopyTransformation',
+           'cut': 'CutTransformation', 'map': 'MapTransformation', 'substitute': 'SubstituteTransformation',
+           'filter': 'FilterTransformation'}
+
+
+def run_tree(case):
+    """build the transformer objects of a derivation tree on the real code (derived from each other,
+    sharing prefixes), record after every derivation the links of ALL objects built so far, then
+    apply the objects named in case['apply'].
+    -> (history: [[[link class names] per object] per derivation], runs: [(node, ops, real)])"""
+    rec = {}
+    RecPath = rec_path_class(rec)
+    bufs = {}
+    chains = G.tree_chains(case)
+    nodes = [apply_op(None, 0, chains[0][0], bufs, RecPath)]
+    history = []
+    for k, (parent, op) in enumerate(case['derive']):
+        nodes.append(apply_op(nodes[parent], len(chains[parent]), op, bufs, RecPath))
+        history.append([[type(l).__name__ for l in t.transforms] for t in nodes])
+    runs = []
+    for k in case['apply']:
+        for b in bufs.values():
+            b.reset()
+        rec.clear()
+        real = run_transformer(case['doc'], nodes[k], bufs, rec)
+        real['rec'] = dict((i, list(v) if isinstance(v, list) else v) for i, v in rec.items())
+        real['bufs'] = dict((i, b) for i, b in real['bufs'].items() if any(o[0] in ('copy', 'cut') and o[1] == i
+                                                                          for o in chains[k]))
+        runs.append((k, chains[k], real))
+    return history, runs
+
+
+def same_outcome(a, b):
+    if a['status'] != b['status']:
+        return False
+    if a['status'] != 'ok':
+        return a['err'] == b['err']
+    return a['marked'] == b['marked'] and a['bufs'] == b['bufs']
+
+
+def oracle_tree(case, tree=None):
+    """every transformer object behaves like the same chain built from a fresh Transformer(path),
+    whatever was derived from it or from its origin before; and the clauses of the property hold
+    for the object as it is (a transformer that only selects is the identity, ...)"""
+    history, runs = tree if tree is not None else run_tree(case)
+    for k, ops, real in runs:
+        fresh = run_real(case['doc'], ops)
+        if not same_outcome(real, fresh):
+            what = 'a transformer that only selects is the identity' if len(ops) == 1 else \
+                'a transformer changes only what its own operations select'
+            return fail(case, what + ' (transformer %d of the derivation tree, used after other transformers were '
+                        'derived from it or its origin, vs. the same chain built fresh)' % k,
+                        _short([fresh['status'], fresh['err'], unmark(fresh['marked']), sorted(fresh['bufs'].items())]),
+                        _short([real['status'], real['err'], unmark(real['marked']), sorted(real['bufs'].items())]))
+        f = oracle_chain({'kind': 'chain', 'doc': case['doc'], 'ops': ops}, real)
+        if f:
+            f['case'] = case
+            return f
+    return None
 
 
 def unmark(marked):
@@ -660,6 +740,19 @@ def valid_case(case):
             return isinstance(case.get('passwords', False), bool)
         if k == 'other':
             return case.get('filter') in ('sanitizer', 'translator', 'empty', 'whitespace', 'nsflat', 'doctype')
+        if k == 'tree':
+            if not valid_path(case['root']):
+                return False
+            n = 1
+            for d in case['derive']:
+                if len(d) != 2 or not isinstance(d[0], int) or not 0 <= d[0] < n:
+                    return False
+                n += 1
+            if not all(isinstance(a, int) and 0 <= a < n for a in case['apply']) or not case['apply']:
+                return False
+            return all(valid_case({'kind': 'chain', 'doc': case['doc'], 'ops': ops}) and
+                       all(o[0] != 'buffer' and not (o[0] in INJ and o[1][0] == 'buf') for o in ops)
+                       for ops in G.tree_chains(case))
         return False
     except (KeyError, TypeError, IndexError, AttributeError):
         return False
@@ -677,6 +770,8 @@ def oracle_case(case):
         return oracle_form(case)
     if k == 'other':
         return oracle_other(case)
+    if k == 'tree':
+        return oracle_tree(case)
     raise ValueError(k)
 
 
@@ -812,6 +907,17 @@ def chain_model_answer(ans):
     return ['ok', marked, bufs, [u_event(e) for e in v[3]], v[4] == 'T', v[5] in ('T', 'lazy')]
 
 
+def derive_line(case):
+    return proto.line(Atom('C20'), Atom('derive'), Atom(OPCLASS['select']),
+                      [[p, Atom(OPCLASS[op[0]])] for p, op in case['derive']])
+
+
+def derive_model_answer(ans):
+    if ans in ('err', 'unmodelled', 'bad-op', 'bad-line'):
+        return ans
+    return [[[str(l) for l in chain] for chain in snap] for snap in proto.dec(ans)]
+
+
 def w_scalar(v):
     return [str(v), B(bool(v)), B(v is None)]
 
@@ -852,7 +958,7 @@ def compare(items, res):
         if model == 'unmodelled':
             res.count('model:unmodelled')
             continue
-        if stream.startswith('chains'):
+        if stream.startswith('chains') and 'ops' in case:
             lazy = not G.stagewise(case['ops'])
             res.count('chain-model:' + ('lazy' if lazy else 'stage-wise+lazy'))
             if lazy:
@@ -880,6 +986,8 @@ def gen_cases(rng, n):
             cases.append({'kind': 'chainx', 'doc': doc, 'ops': G.gen_chain(rng, 4, doc, wild=True)})
         elif r < 0.08:
             cases.append(G.gen_form_case(rng, wild=True))
+        elif r < 0.14:
+            cases.append(G.gen_tree_case(rng))
         elif r < 0.68:
             doc = G.gen_doc(rng, rng.choice([1, 2, 2, 3]))
             cases.append({'kind': 'chain', 'doc': doc, 'ops': G.gen_chain(rng, 4, doc)})
@@ -955,6 +1063,23 @@ def process(cases, res):
                 for m in set(m for m, _ in real['marked'] if m):
                     res.count('mark:' + m)
                 items.append((c, 'chains', chain_line(c, real), chain_real_answer(real), chain_model_answer))
+            elif c['kind'] == 'tree':
+                tree = run_tree(c)
+                f = oracle_tree(c, tree)
+                history, runs = tree
+                res.count('tree-shape:' + G.tree_shape(c))
+                res.count('tree-size:%d' % (len(c['derive']) + 1))
+                res.count('tree-branching:' + ('yes' if len(set(p for p, _ in c['derive'])) < len(c['derive']) else 'no'))
+                seen = set()
+                for k, ops, real in runs:
+                    res.count('tree-apply:' + ('again' if k in seen else 'first') + (':origin' if k == 0 else ''))
+                    seen.add(k)
+                    if real['status'] == 'ok' and unmark(real['marked']) != G.flatten(c['doc']):
+                        res.nontrivial.add(json.dumps([G.tree_shape(c), k, [o[0] for o in ops]]))
+                    sub = {'kind': 'tree', 'doc': c['doc'], 'root': c['root'], 'derive': c['derive'], 'apply': [k]}
+                    items.append((sub, 'chains-derived', chain_line({'doc': c['doc'], 'ops': ops}, real),
+                                  chain_real_answer(real), chain_model_answer))
+                items.append((c, 'derive-history', derive_line(c), history, derive_model_answer))
             elif c['kind'] == 'form':
                 f = oracle_form(c)
                 st, out = run_filler(c)
